@@ -60,6 +60,12 @@ func allCombos() []combo {
 			out = append(out, combo{2, k, p})
 		}
 	}
+	// groups with several live members and a stranger whose join is refused at the group check
+	for _, e := range []int{1, 2} {
+		for _, k := range []string{"tcp-group", "http-group", "tcpmux-group"} {
+			out = append(out, combo{e, k, "stranger-join"})
+		}
+	}
 	return out
 }
 
@@ -361,6 +367,8 @@ func runCase(c *h.Case, e *env, kind, path string) {
 	c.Data["victim"], c.Data["bystander"] = k.vs, k.bs
 
 	switch path {
+	case "stranger-join":
+		k.strangerJoin()
 	case "partial-fail":
 		k.partialFail()
 	case "name-race":
@@ -384,7 +392,7 @@ func runCase(c *h.Case, e *env, kind, path string) {
 		}
 	}
 	// bystander: still there, still its own
-	if k.B != nil && k.bs != nil && !k.B.p.Closed() && c.Violations() == 0 && path != "name-race" && path != "partial-fail" {
+	if k.B != nil && k.bs != nil && !k.B.p.Closed() && c.Violations() == 0 && path != "name-race" && path != "partial-fail" && path != "stranger-join" {
 		k.expectServed("end of case (bystander)", k.bs, k.bystanderOwners()...)
 	}
 	run.Count("cases_"+e.name, 1)
@@ -1087,4 +1095,205 @@ func (k *kase) nameRace() {
 	}
 	k.expectServed("after the winner closed", k.vs, k.V)
 	k.checkLedger("registered after the name race", k.withSib([]live{{k.vs, k.V}}))
+}
+
+// ---------------------------------------------------------------------------------------------
+// a stranger's join of a load-balancing group with several live members is refused at the group check
+
+// groupMembers returns (member count, listed) of the group in the server's own group table.
+func (k *kase) groupMembers(group string) (int, bool) {
+	sn := k.e.srv.Snapshot()
+	switch k.kind {
+	case "tcp-group":
+		n, ok := sn.TCPGroups[group]
+		return n, ok
+	case "http-group":
+		l, ok := sn.HTTPGroups[group]
+		return len(l), ok
+	default:
+		n, ok := sn.TCPMuxGroups[group]
+		return n, ok
+	}
+}
+
+// expectGroupServed: several requests to the group's endpoint, each answered by a live member under its own name.
+func (k *kase) expectGroupServed(when string, lv []live) bool {
+	ok := map[string]bool{}
+	for _, l := range lv {
+		ok[l.owner.id+"|"+l.s.Name] = true
+	}
+	seen := map[string]bool{}
+	for i := 0; i < 2*len(lv); i++ {
+		var rs []probeResult
+		good := false
+		for attempt := 0; attempt < 2 && !good; attempt++ {
+			rs = probeSpec(k.e, lv[0].s, k.P, k.owners())
+			good = len(rs) > 0
+			for _, r := range rs {
+				if !ok[r.Who] {
+					good = false
+				}
+			}
+		}
+		run.Count("traffic_probes", int64(len(rs)))
+		if !good {
+			for _, l := range lv {
+				if l.owner.p.Closed() {
+					k.inconclusive("member session ended while probing")
+					return false
+				}
+			}
+			k.c.Ev("probe-group", "when", when, "results", describe(rs))
+			k.c.Violation(fmt.Sprintf("group-endpoint-not-served-by-members-%s", k.kind), "%s: the endpoint of group %s has %d live members %v, a request saw %s",
+				when, lv[0].s.Group, len(lv), sortedKeys(ok), describe(rs))
+			return false
+		}
+		for _, r := range rs {
+			seen[r.Who] = true
+		}
+	}
+	k.c.Ev("probe-group", "when", when, "answered_by", sortedKeys(seen))
+	return true
+}
+
+func (k *kase) strangerJoin() {
+	// members: V, B and (sometimes) a third session; P is the stranger
+	members := []*actor{k.V, k.B}
+	specs := []*spec{k.vs, k.bs}
+	joinGroupOf(k.bs, k.vs)
+	k.bs.Enc, k.bs.Comp, k.bs.Limit = k.vs.Enc, k.vs.Comp, k.vs.Limit
+	if k.rng.Intn(2) == 0 {
+		m3 := k.actor("M", "", 0, true)
+		if m3 == nil {
+			k.inconclusive("login failed")
+			return
+		}
+		m3.keepAlive()
+		s3 := *k.bs
+		s3.Name, s3.real = k.pfx+"m", 0
+		members, specs = append(members, m3), append(specs, &s3)
+	}
+	k.sameGrp = true
+	k.variant = append(k.variant, fmt.Sprintf("members%d", len(members)))
+	group := k.vs.Group
+	var lv []live
+	for i, m := range members {
+		if !k.mustRegister("setup", m, specs[i], "") {
+			return
+		}
+		lv = append(lv, live{specs[i], m})
+	}
+	defer func() { k.bs = nil }()
+	if !k.checkLedger("group formed", lv) || !k.expectGroupServed("group formed", lv) {
+		return
+	}
+
+	// refused joins of the stranger: wrong key, then a different endpoint
+	forgotten := false
+	attempts := []string{"wrong-key", "other-endpoint"}
+	if k.rng.Intn(2) == 0 {
+		attempts[0], attempts[1] = attempts[1], attempts[0]
+	}
+	for _, how := range attempts {
+		st := *k.vs
+		st.Name, st.real = k.pfx+"stranger", 0
+		switch how {
+		case "wrong-key":
+			st.GroupKey = "not-the-key"
+		default:
+			switch k.kind {
+			case "tcp-group":
+				if k.e.auto {
+					st.Port = 20949 // the group asked for "any port": a fixed one is a different endpoint
+				} else {
+					st.Port = k.takePort()
+				}
+			case "http-group":
+				if k.rng.Intn(2) == 0 {
+					st.Locations = []string{"/elsewhere"}
+				} else {
+					st.Domains = []string{k.domain("s", 0)}
+				}
+			default:
+				st.Domains = []string{k.domain("s", 0)}
+			}
+		}
+		resp, err := k.P.register(&st)
+		if err != nil {
+			k.inconclusive("no reply to the stranger's join")
+			return
+		}
+		if resp.Error == "" {
+			k.c.Violation(fmt.Sprintf("stranger-join-accepted-%s", k.kind), "join of group %s with %s was accepted", group, how)
+			return
+		}
+		run.Count("stranger_joins_refused", 1)
+		k.variant = append(k.variant, how)
+		// other proxies' resources are untouched by the registration that failed at the group check
+		if n, listed := k.groupMembers(group); !listed || n != len(lv) {
+			k.c.Violation(fmt.Sprintf("group-forgotten-after-strangers-failed-join-%s", k.kind),
+				"a stranger's join of group %s (%s) was refused (%s); the group table now lists the group: %v with %d members, but %d members are registered and hold its endpoint",
+				group, how, trimErr(resp.Error), listed, n, len(lv))
+			forgotten = true // go on: the consequence for the members' identical re-registration is the second witness
+			break
+		}
+		if !k.checkLedger("after the stranger's refused join ("+how+")", lv) {
+			return
+		}
+	}
+	if !forgotten && !k.expectGroupServed("after the stranger's refused joins", lv) {
+		return
+	}
+
+	// one member closes and submits the identical registration right behind the close request
+	mi := k.rng.Intn(len(members))
+	if err := members[mi].p.CloseProxy(specs[mi].Name); err != nil {
+		k.inconclusive("close request could not be sent")
+		return
+	}
+	run.Count("closes", 1)
+	if !k.mustRegister("member re-registers after the stranger's refused join", members[mi], specs[mi],
+		"member-reregistration-refused-after-strangers-failed-join") {
+		return
+	}
+	// a new legitimate member (the former stranger, now with the right key and endpoint)
+	legit := *specs[0]
+	legit.Name, legit.real = k.pfx+"newmember", 0
+	if !k.mustRegister("new member joins after the stranger's refused join", k.P, &legit,
+		"new-member-refused-after-strangers-failed-join") {
+		return
+	}
+	lv = append(lv, live{&legit, k.P})
+	if !k.checkLedger("after re-registration and new member", lv) || !k.expectGroupServed("after re-registration and new member", lv) {
+		return
+	}
+
+	// everybody leaves: explicit closes and session ends mixed
+	for i, l := range lv {
+		if i%2 == 0 {
+			if err := l.owner.p.CloseProxy(l.s.Name); err != nil || l.owner.barrier() != nil {
+				k.inconclusive("close barrier missing")
+				return
+			}
+		} else {
+			l.owner.close()
+			if !k.sessionGone("member session end", l.owner) {
+				return
+			}
+		}
+	}
+	if !k.checkLedger("after every member left", nil) {
+		return
+	}
+	if n, listed := k.groupMembers(group); listed {
+		k.c.Violation(fmt.Sprintf("group-left-behind-%s", k.kind), "group %s is still listed (%d members) after every member left", group, n)
+	}
+	rs := probeSpec(k.e, specs[0], k.P, k.owners())
+	k.c.Ev("probe-gone", "when", "after every member left", "results", describe(rs))
+	for _, r := range rs {
+		if strings.Contains(r.Who, "|"+k.pfx) {
+			k.c.Violation(fmt.Sprintf("group-endpoint-still-served-%s", k.kind), "after every member left, the endpoint of group %s is still answered: %s", group, describe(rs))
+			break
+		}
+	}
 }
